@@ -9,7 +9,7 @@ import numpy as np
 from river.metrics.base import Metric
 from tqdm import tqdm
 
-from ixai.explainer.base import _get_mean_model_output
+from ixai.explainer.base import _get_mean_model_output, _loss_value
 from ixai.imputer import BaseImputer, MarginalImputer
 from ixai.storage import BatchStorage
 from ixai.storage.base import BaseStorage
@@ -148,7 +148,7 @@ class BatchSage:
                                   disable=not verbose):
             permutation_chain = [self.feature_names[idx]
                                  for idx in np.random.permutation(len(self.feature_names))]
-            loss_previous = self._loss_function(y_i, marginal_prediction)
+            loss_previous = _loss_value(self._loss_function(y_i, marginal_prediction))
             features_not_in_s = list(self.feature_names)  # ordered: a set would iterate in string-hash order
             for feature in permutation_chain:
                 features_not_in_s.remove(feature)
@@ -158,7 +158,7 @@ class BatchSage:
                     n_samples=n_inner_samples
                 )
                 y = _get_mean_model_output(predictions)
-                feature_loss = self._loss_function(y_i, y)
+                feature_loss = _loss_value(self._loss_function(y_i, y))
                 marginal_contribution = loss_previous - feature_loss
                 sage_values[feature] += marginal_contribution
                 loss_previous = feature_loss
@@ -200,7 +200,7 @@ class BatchSage:
             permutation_chain = [self.feature_names[idx]
                                  for idx in np.random.permutation(len(self.feature_names))]
             x_s = {}
-            loss_previous = self._loss_function(y_i, marginal_prediction)
+            loss_previous = _loss_value(self._loss_function(y_i, marginal_prediction))
             for feature in permutation_chain:
                 x_s[feature] = x_i[feature]
                 predictions = []
@@ -209,7 +209,7 @@ class BatchSage:
                     x_marginal = {**x_marginal, **x_s}
                     predictions.append(self._model_function(x_marginal))
                 y = _get_mean_model_output(predictions)
-                feature_loss = self._loss_function(y_i, y)
+                feature_loss = _loss_value(self._loss_function(y_i, y))
                 marginal_contribution = loss_previous - feature_loss
                 sage_values[feature] += marginal_contribution
                 loss_previous = feature_loss
